@@ -12,7 +12,7 @@ from __future__ import annotations
 
 import re
 
-from kit.h import P, run, mark, known, concretize
+from kit.h import P, run, mark, known, concretize, decode_point
 import urllib3.util.url as U
 from urllib3.util.url import parse_url, Url, _encode_invalid_chars, _remove_path_dot_segments
 from urllib3.exceptions import LocationParseError
@@ -220,7 +220,6 @@ def _zone_equiv(a, b):
 
 
 def _template_body(x):
-    x = concretize(x)
     url = TEMPLATES[P.template].replace("{X}", x)
     why = check_url(url)
     if why:
@@ -228,18 +227,46 @@ def _template_body(x):
     return True
 
 
-def c14_template(x: str) -> bool:
+def strings_upto(alphabet, n):
+    out = [""]
+    layer = [""]
+    for _ in range(n):
+        layer = [a + ch for a in layer for ch in alphabet]
+        out.extend(layer)
+    return out
+
+
+_STR = {}
+
+
+def template_dims(part):
+    key = part["maxlen"]
+    if key not in _STR:
+        _STR[key] = strings_upto(ALPHABET, key)
+    k, m = part.get("slice", (0, 1))
+    return [part["templates"], _STR[key][k::m]]
+
+
+def _template_point(idx):
+    name, x = decode_point(idx, template_dims(P))
+    P["template"] = name
+    return _untraced(_template_body)(x)
+
+
+def _untraced(fn):
+    from kit.net import _untraced as u
+    return u(fn)
+
+
+def c14_template(idx: int) -> bool:
     """
-    pre: len(x) <= P.maxlen
-    pre: all(ch in ALPHABET for ch in x)
-    pre: P.first is None or (len(x) >= 1 and x[0] == P.first)
+    pre: 0 <= idx < P.n
     post: _
     """
-    return run(_template_body, x)
+    return run(_template_point, idx)
 
 
 def _port_body(digits, slash):
-    digits = concretize(digits)
     url = "http://h:" + digits + ("/" if slash else "")
     try:
         u = parse_url(url)
@@ -253,12 +280,21 @@ def _port_body(digits, slash):
     return u.port == int(digits) and 0 <= u.port <= 65535 and u.host == "h"
 
 
-def c14_port(digits: str, slash: bool) -> bool:
+def port_dims(part):
+    return [part["extra"] + strings_upto("0123456789", part["maxlen"]), [False, True]]
+
+
+def _port_point(idx):
+    digits, slash = decode_point(idx, port_dims(P))
+    return _untraced(_port_body)(digits, slash)
+
+
+def c14_port(idx: int) -> bool:
     """
-    pre: digits in P.extra or (len(digits) <= P.maxlen and all(ch in "0123456789" for ch in digits))
+    pre: 0 <= idx < P.n
     post: _
     """
-    return run(_port_body, digits, slash)
+    return run(_port_point, idx)
 
 
 def ref_remove_dot_segments(path):
@@ -330,13 +366,35 @@ def _dotseg_body(n, s0, s1, s2, s3, s4, lead, trail):
     return True
 
 
-def c14_dotseg(n: int, s0: int, s1: int, s2: int, s3: int, s4: int, lead: bool, trail: bool) -> bool:
+def dotseg_dims(part):
+    return [_dot_shapes(part["maxn"]), [False, True], [False, True]]
+
+
+def _dot_shapes(maxn):
+    out = []
+
+    def rec(n, prefix):
+        if len(prefix) == n:
+            out.append((n, tuple(prefix + [0] * (5 - n))))
+            return
+        for i in range(5):
+            rec(n, prefix + [i])
+    for n in range(maxn + 1):
+        rec(n, [])
+    return out
+
+
+def _dotseg_point(idx):
+    (n, sh), lead, trail = decode_point(idx, dotseg_dims(P))
+    return _untraced(_dotseg_body)(n, sh[0], sh[1], sh[2], sh[3], sh[4], lead, trail)
+
+
+def c14_dotseg(idx: int) -> bool:
     """
-    pre: 0 <= n <= P.maxn
-    pre: 0 <= s0 <= 4 and 0 <= s1 <= 4 and 0 <= s2 <= 4 and 0 <= s3 <= 4 and 0 <= s4 <= 4
+    pre: 0 <= idx < P.n
     post: _
     """
-    return run(_dotseg_body, n, s0, s1, s2, s3, s4, lead, trail)
+    return run(_dotseg_point, idx)
 
 
 ALLOWED_SETS = {"userinfo": USERINFO_OK, "path": PATH_OK, "query": QUERY_OK, "unreserved": UNRESERVED}
@@ -346,7 +404,6 @@ def _char_body(c, situation):
     allowed = ALLOWED_SETS[P.allowed]
     aset = {"userinfo": U._USERINFO_CHARS, "path": U._PATH_CHARS, "query": U._QUERY_CHARS,
             "unreserved": U._UNRESERVED_CHARS}[P.allowed]
-    c = concretize(c)
     ch = chr(c)
     if situation == 0:
         s = ch
@@ -374,12 +431,25 @@ def _char_body(c, situation):
     return True
 
 
-def c14_char(c: int, situation: int) -> bool:
+def char_dims(part):
+    return [list(range(part["lo"], part["hi"] + 1)), [0, 1, 2]]
+
+
+def _char_point(idx):
+    c, situation = decode_point(idx, char_dims(P))
+    return _untraced(_char_body)(c, situation)
+
+
+def c14_char(idx: int) -> bool:
     """
-    pre: P.lo <= c <= P.hi and 0 <= situation <= 2
+    pre: 0 <= idx < P.n
     post: _
     """
-    return run(_char_body, c, situation)
+    return run(_char_point, idx)
+
+
+DIMS = {"c14_template": template_dims, "c14_port": port_dims, "c14_dotseg": lambda part: [_dot_shapes(part["maxn"]), [False, True], [False, True]],
+        "c14_char": char_dims}
 
 
 # ---- E2 lemmas -----------------------------------------------------------------------------------------------
@@ -506,36 +576,32 @@ def _strip_dollar(tr):
 
 def JOBS(tier):
     quick = tier == "quick"
-    t = 170 if quick else 1200
+    t = 170 if quick else 1500
     jobs = []
-    ml = 2 if quick else 3
-    for name in TEMPLATES:
-        if quick:
-            jobs.append({"func": "c14_template", "part": {"template": name, "maxlen": ml, "first": None}, "timeout": t,
-                         "path_timeout": 60})
-        else:
-            jobs.append({"func": "c14_template", "part": {"template": name, "maxlen": 0, "first": None}, "timeout": t})
-            for ch in ALPHABET:
-                jobs.append({"func": "c14_template", "part": {"template": name, "maxlen": ml, "first": ch}, "timeout": t,
-                             "path_timeout": 60})
+    ml = 3 if quick else 4
+    names = list(TEMPLATES)
+    nsl = 2 if quick else 16
+    for name in names:
+        for k in range(nsl):
+            jobs.append({"func": "c14_template", "part": {"templates": [name], "maxlen": ml, "slice": [k, nsl]}, "timeout": t,
+                         "path_timeout": 60, "samples": 1})
     extra = ["65535", "65536", "065535", "0065536", "99999", "100000", "00000", "000080", "0000000443", "655350",
              "4294967376", "18446744073709551696"]
-    jobs.append({"func": "c14_port", "part": {"maxlen": 3 if quick else 4, "extra": extra}, "timeout": t})
-    jobs.append({"func": "c14_dotseg", "part": {"maxn": 4 if quick else 5}, "timeout": t})
-    ranges = [(lo, lo + 0xFF) for lo in range(0, 0x800, 0x100)] if quick else \
-        [(lo, lo + 0x3FF) for lo in range(0, 0x10000, 0x400)] + [(0x10000, 0x103FF), (0x10FC00, 0x10FFFF)]
+    jobs.append({"func": "c14_port", "part": {"maxlen": 3 if quick else 5, "extra": extra}, "timeout": t, "samples": 1})
+    jobs.append({"func": "c14_dotseg", "part": {"maxn": 4 if quick else 5}, "timeout": t, "samples": 1})
+    ranges = [(0, 0x7FF)] if quick else [(lo, lo + 0x1FFF) for lo in range(0, 0x10000, 0x2000)] + [(0x10000, 0x107FF), (0x10F800, 0x10FFFF)]
     for a in ALLOWED_SETS:
         for lo, hi in ranges:
-            jobs.append({"func": "c14_char", "part": {"allowed": a, "lo": lo, "hi": hi}, "timeout": t})
+            jobs.append({"func": "c14_char", "part": {"allowed": a, "lo": lo, "hi": hi}, "timeout": t, "samples": 1})
     return jobs
 
 
 EVIDENCE = {
     "bounds": {"quick": "E2 lemmas: strings of any length (z3 regex theory, code points <= U+2FFFF); E1: 14 URL skeletons with one "
-                        "hole of <= 2 characters over the 15-character alphabet '/\\\\?#@:%[].aA0 SP LF' (exhaustive), ports of <= 3 "
+                        "hole of <= 3 characters over the 15-character alphabet '/\\\\?#@:%[].aA0 SP LF' (exhaustive), ports of <= 3 "
                         "digits + 12 boundary/overflow spellings, dot-segment lists of <= 4 segments from {., .., '', a, b.}, per-character encoding lemma for code points 0..0x7FF (every 1- and 2-byte UTF-8 form) x 4 allowed sets x "
                         "3 percent situations; values handed to the regex engine / codecs are solver-enumerated one model per path",
-               "thorough": "holes <= 3 (partitioned by first character), ports <= 7 digits, <= 5 segments, code points 0..0xFFFF + astral edges"},
+               "thorough": "holes <= 4, ports <= 5 digits + overflow spellings, <= 5 segments, code points 0..0xFFFF + astral edges"},
     "outside": ["the running-time clause (no cost model of re backtracking within reach)",
                 "IDNA mapping tables (idna package): non-ASCII hosts are outside the alphabet",
                 "holes longer than the bound / characters outside the alphabet in E1 templates",
